@@ -11,6 +11,15 @@
 using namespace asl;
 using namespace vh;
 
+// SHA1::update / SHA1::end are private members: their addresses are taken in an explicit template instantiation
+// (access checking does not apply there, [temp.spec]), so the streaming interface is driven on the real object without
+// touching the header or the library
+template<typename Tag, typename Tag::type M> struct Access { friend typename Tag::type access(Tag) { return M; } };
+struct SHA1Update { typedef void (SHA1::*type)(const byte*, int); friend type access(SHA1Update); };
+struct SHA1End { typedef SHA1::Hash (SHA1::*type)(); friend type access(SHA1End); };
+template struct Access<SHA1Update, &SHA1::update>;
+template struct Access<SHA1End, &SHA1::end>;
+
 static String S(const std::string& s) { return String(s.data(), (int)s.size()); }
 
 static std::string lenhex(const ByteArray& a)
@@ -95,6 +104,21 @@ static std::string step(const Toks& t)
 		ByteArray a((const byte*)d.p, (int)d.n);
 		return lenhex(decodeBase64(encodeBase64(a)));
 	}
+	if (op == "b64fold" && t.size() == 3) {
+		// the library's encoding folded here into lines of n characters with CR LF (MIME: 76), through the library's decoder
+		long n = (long)num(t[1]);
+		if (n < 0) return "bad-op";
+		Exact d(unhex(t[2]));
+		String e = encodeBase64((const byte*)d.p, (int)d.n);
+		std::string f;
+		long k = n;
+		for (int i = 0; i < e.length(); i++) {
+			if (k == 0) { f += "\r\n"; k = n > 0 ? n - 1 : 0; }
+			else k--;
+			f += (*e)[i];
+		}
+		return lenhex(decodeBase64(S(f)));
+	}
 	if (op == "hexenc" && t.size() == 2) {
 		Exact d(unhex(t[1]));
 		String e = encodeHex((const byte*)d.p, (int)d.n);
@@ -149,6 +173,32 @@ static std::string step(const Toks& t)
 		std::string s;      // in the dictionary's own order
 		for (size_t i = 0; i < out.size(); i++) s += (i ? " " : "") + out[i].first + ":" + out[i].second;
 		return s.empty() ? "{}" : s;
+	}
+	if (op == "sha1s" && t.size() >= 2) {
+		// the message cut at the given absolute positions (a position behind the previous one gives an empty update, one
+		// past the end takes what is left), one SHA1::update per piece - each from its own exact-size heap block - then the
+		// rest, then SHA1::end
+		std::string d = unhex(t[1]);
+		SHA1 sha;
+		size_t pos = 0;
+		for (size_t i = 2; i <= t.size(); i++) {
+			size_t k;
+			if (i < t.size()) {
+				long c = (long)num(t[i]);
+				if (c < 0) return "bad-op";
+				k = (size_t)c > pos ? (size_t)c - pos : 0;
+				k = std::min(k, d.size() - std::min(pos, d.size()));
+			}
+			else k = d.size() - std::min(pos, d.size());
+			size_t from = std::min(pos, d.size());
+			byte* p = (byte*)malloc(k ? k : 1);
+			memcpy(p, d.data() + from, k);
+			(sha.*access(SHA1Update()))(p, (int)k);
+			free(p);
+			if (i < t.size()) pos += (size_t)num(t[i]) > pos ? (size_t)num(t[i]) - pos : 0;
+		}
+		SHA1::Hash h = (sha.*access(SHA1End()))();
+		return hex(&h[0], 20);
 	}
 	if (op == "sha1" && t.size() == 2) {
 		Exact d(unhex(t[1]));
